@@ -295,6 +295,7 @@ class TermAnalysis(Analysis):
                 self.defaults[p.arg] = d
         self.assigned = self._assigned_names(fn.node)
         self._inl: List[tuple] = []          # (kind, pc, exc) collected while evaluating one statement / test
+        self._inlined_calls: set = set()     # ids of call nodes replaced by the value of an inlined helper
         self.inline_depth = 0
 
     # -------------------------------------------------------------- setup
@@ -746,7 +747,12 @@ class TermAnalysis(Analysis):
             parts = []
             for op, c in zip(e.ops, e.comparators):
                 r = self.ev(c, st)
-                parts.append(("cmp", CMPS[type(op)], left, r))
+                if isinstance(op, (ast.In, ast.NotIn)) and is_const(r) and isinstance(r[1], range) and r[1].step == 1 and _integer_valued(left):
+                    # n in range(a, b) for an integer n is a <= n < b
+                    rng = ("bool", "and", (("cmp", "<=", const(r[1].start), left), ("cmp", "<", left, const(r[1].stop))))
+                    parts.append(rng if isinstance(op, ast.In) else ("un", "not", rng))
+                else:
+                    parts.append(("cmp", CMPS[type(op)], left, r))
                 left = r
             return parts[0] if len(parts) == 1 else ("bool", "and", tuple(parts))
         if isinstance(e, ast.IfExp):
@@ -768,7 +774,10 @@ class TermAnalysis(Analysis):
         if isinstance(e, ast.Call):
             return self._call(e, st)
         if isinstance(e, ast.Await):
-            return ("await", self.ev(e.value, st))
+            inner = self.ev(e.value, st)
+            if isinstance(e.value, ast.Call) and self._was_inlined(e.value):
+                return inner          # the value of an inlined coroutine helper already is its (awaited) result
+            return ("await", inner)
         if isinstance(e, (ast.Yield, ast.YieldFrom)):
             return ("yield", self.ev(e.value, st) if e.value else const(None))
         if isinstance(e, ast.NamedExpr):
@@ -873,6 +882,7 @@ class TermAnalysis(Analysis):
         if t[0] == "call" and t[1][0] == "func" and t[1][1] in self.prog.funcs and not self.prog.is_known(t[1][1]):
             r = self.inline(e, t, st)
             if r is not None:
+                self._inlined_calls.add(id(e))
                 return r
         if t[0] == "call" and t[1][0] == "dyn" and t[1][1][0] == "localfunc" and t[1][1][1] in self._local_funcs:
             # a nested function that closes over nothing of the enclosing function is a helper like any other
@@ -882,6 +892,9 @@ class TermAnalysis(Analysis):
                 if r is not None:
                     return r
         return t
+
+    def _was_inlined(self, call_node) -> bool:
+        return id(call_node) in self._inlined_calls
 
     def _local_fn(self, name: str) -> Optional[FuncInfo]:
         node = self._local_funcs[name]
@@ -1072,6 +1085,24 @@ class TermAnalysis(Analysis):
                 return ("call", (kind, q), args, kwargs)
             return ("call", ("dyn", g), args, kwargs)
         return ("call", ("dyn", self.ev(f, st)), args, kwargs)
+
+
+def _integer_valued(t) -> bool:
+    """t certainly evaluates to an int (so that membership in a range is an interval test)"""
+    t0 = t
+    while t0[0] == "call" and t0[1] == ("ext", "typing.cast") and len(t0[2]) == 2:
+        t0 = t0[2][1]
+    if is_const(t0):
+        return isinstance(t0[1], int) and not isinstance(t0[1], bool)
+    if t0[0] == "enum":
+        return isinstance(t0[3], int)
+    if t0[0] == "call" and t0[1][0] == "ext" and t0[1][1] in ("int", "len", "int.from_bytes", "ord", "round"):
+        return t0[1][1] != "round" or len(t0[2]) == 1
+    if t0[0] == "bin" and t0[1] in ("&", "|", "^", "<<", ">>", "//", "%", "+", "-", "*"):
+        return _integer_valued(t0[2]) and _integer_valued(t0[3])
+    if t0[0] == "ite":
+        return _integer_valued(t0[2]) and _integer_valued(t0[3])
+    return False
 
 
 def _bound_method_call(ta, v, args, kwargs, depth=0):
